@@ -67,7 +67,8 @@ type EditItem struct {
 }
 
 type Step struct {
-	Kind    string     `json:"kind"` // phase handoff crypto
+	Kind    string     `json:"kind"`          // phase handoff crypto rekey
+	Key     []byte     `json:"key,omitempty"` // rekey: the key to install (default: the setup's)
 	ASends  bool       `json:"a_sends,omitempty"`
 	SOps    []SOp      `json:"sops,omitempty"`
 	Edit    []EditItem `json:"edit,omitempty"`
@@ -141,6 +142,7 @@ type Obs struct {
 	Phases   []*PhaseObs // index-aligned with steps (nil for non-phase steps)
 	StepOK   []bool      // handoff / crypto outcome
 	IVA, IVB []byte
+	MoreIVs  [][]byte // base IVs after each re-keying step (A's, B's)
 	SetupErr error
 	// every message delivered by a whole-message receive op, per direction, and messages sent
 	HistAB, HistBA []RawFrame
@@ -426,6 +428,26 @@ func Exec(c *Case) (obs *Obs, term string) {
 			obs.Phases = append(obs.Phases, nil)
 			obs.StepOK = append(obs.StepOK, ok)
 			stepTerms = append(stepTerms, fmt.Sprintf("StHandoff %s %s", core.Bool(st.WhoA), core.Bool(ok)))
+		case "rekey":
+			// SetSymmetricKey once more on both ends (the same key unless the step names another)
+			k := st.Key
+			if len(k) == 0 {
+				k = c.Setup.Key
+			}
+			ea, eb := w.a.SetSymmetricKey(k), w.b.SetSymmetricKey(k)
+			ok := ea == nil && eb == nil
+			sa, sb := w.a.VerifSnapshot(), w.b.VerifSnapshot()
+			ivA, ivB := append([]byte(nil), sa.EncryptIV[:]...), append([]byte(nil), sb.EncryptIV[:]...)
+			obs.MoreIVs = append(obs.MoreIVs, ivA, ivB)
+			if ok {
+				for _, d := range []*Dir{w.dirAB, w.dirBA} {
+					d.Key = append([]byte(nil), k...)
+					d.BaseIV, d.Counter, d.First = nil, 0, true
+				}
+			}
+			obs.Phases = append(obs.Phases, nil)
+			obs.StepOK = append(obs.StepOK, ok)
+			stepTerms = append(stepTerms, fmt.Sprintf("StRekey %s %s %s %s", core.Hex(k), core.Hex(ivA), core.Hex(ivB), core.Bool(ok)))
 		case "crypto":
 			s := w.a
 			if !st.WhoA {
